@@ -42,8 +42,6 @@ Dicts1(S, K) == {PyDict(<<>>)} \cup {PyDict(<<[kk |-> k1, v |-> x]>>) : k1 \in K
                         kp \in {q \in K \X K : q[1] # q[2]}, x \in S, y \in S}
 Depth2on12 == Leaves12 \cup Lists1(Leaves12) \cup Dicts1(Leaves12, Keys4)
 W1 == Leaves4 \cup Lists1(Leaves4) \cup Dicts1(Leaves4, Keys3)
-Depth3on4 == Leaves4 \cup Lists1(W1) \cup Dicts1(W1, IF Quick THEN {PyStr(U("a"))} ELSE Keys3)
-LawVals == Depth2on12 \cup Depth3on4
 
 \* ---------------- Laws ----------------------------------------------------------------------------
 Law(v) ==
@@ -82,8 +80,22 @@ VARIABLES ph, cur, ehist, est, eheld, rec_i
 vars == <<ph, cur, ehist, est, eheld, rec_i>>
 Names == {"a", "b"}
 
-LawInit == /\ ph = "law" /\ cur \in LawVals /\ ehist = <<>> /\ est = <<>> /\ eheld = <<>> /\ rec_i = 0
-LawNext == UNCHANGED vars
+\* Initial-state enumeration is single-threaded in TLC: the grid sits behind a first action.  A seed is a value x
+\* of the level below; its successors are all grid values whose first component is x (plus x itself), so the
+\* 16 workers share the evaluation of the laws.
+SeedKeys(lv) == IF lv = 2 THEN Keys4 ELSE IF Quick THEN {PyStr(U("a"))} ELSE {PyStr(U("1")), PySmall(1)}    \* collide after stringification
+SeedPeers(lv) == IF lv = 2 THEN Leaves12 ELSE W1
+Expand(lv, x) ==
+  {x, PyList(<<>>), PyDict(<<>>), PyList(<<x>>)} \cup {PyList(<<x, y>>) : y \in SeedPeers(lv)}
+  \cup {PyDict(<<[kk |-> k1, v |-> x]>>) : k1 \in SeedKeys(lv)}
+  \cup {PyDict(<<[kk |-> kp[1], v |-> x], [kk |-> kp[2], v |-> y]>>) :
+           kp \in {q \in SeedKeys(lv) \X SeedKeys(lv) : q[1] # q[2]}, y \in SeedPeers(lv)}
+ASSUME (UNION {Expand(2, x) : x \in Leaves12}) = Depth2on12 \cup {PyList(<<>>), PyDict(<<>>)}      \* the seeds cover the grid
+LawInit == /\ ph = "lawseed" /\ cur \in ({[lv |-> 2, x |-> x] : x \in Leaves12} \cup {[lv |-> 3, x |-> x] : x \in W1})
+           /\ ehist = <<>> /\ est = <<>> /\ eheld = <<>> /\ rec_i = 0
+LawNext == /\ ph = "lawseed" /\ ph' = "law"
+           /\ cur' \in Expand(cur.lv, cur.x)
+           /\ UNCHANGED <<ehist, est, eheld, rec_i>>
 LawsHold == ph # "law" \/ Law(cur)
 
 \* ---------------- Enum (B): boundary traces -----------------------------------------------------
